@@ -152,7 +152,9 @@ func runC04(c *core.Ctx) *core.Violation {
 		e.StartTool()
 		for k := 0; k <= len(cuts); k++ {
 			// wait for the incremental phase of this incarnation and for a first committed group
-			ok := e.WaitUntil(60*time.Second, 50*time.Millisecond, func() bool {
+			// (the bound covers the whole release schedule: the first forwarded command may be released late,
+			// and commands that are filtered out store no checkpoint)
+			ok := e.WaitUntil(lastRelease+60*time.Second, 50*time.Millisecond, func() bool {
 				off, _, _, _ := storedCheckpoint(e.Tgt, srcAddr)
 				return base.Status == "incr" && off >= 0 && len(e.Src.Links) > 0
 			})
@@ -161,7 +163,7 @@ func runC04(c *core.Ctx) *core.Violation {
 				return
 			}
 			if !ok {
-				fail("no-progress", fmt.Sprintf("incarnation=%d", minI(k, 1)), "incarnation %d did not reach the incremental phase with a checkpoint within 60 s", k)
+				fail("no-progress", fmt.Sprintf("incarnation=%d", minI(k, 1)), "incarnation %d did not reach the incremental phase with a checkpoint within 60 s of the last stream byte being released", k)
 				return
 			}
 			if k == len(cuts) {
